@@ -112,7 +112,8 @@ class _Conv(object):
         for a in cone_of_influence(self.assumptions, cond):
             s.add(a)
         s.add(z3.Not(cond))
-        r = s.check() == z3.unsat
+        from .sym import check_deadline
+        r = check_deadline(s, self.timeout_ms / 1000.0 + 2.0) == z3.unsat
         self.hcache[k] = r
         self.keep.append(cond)
         return r
